@@ -1074,3 +1074,29 @@ M("C02", "listing-reads-entry-title", "breaking",
 M("C10", "client-ip-last-group-only", "breaking",
   [(P, "GeminiServerProtocol._handle_gemini_request", "        client_ip = self.peer_name[0] if self.peer_name else \"unknown\"\n", "        client_ip = str(self.peer_name[0]).rpartition(\":\")[2] if self.peer_name else \"unknown\"\n")],
   "L13:server.protocol:GeminiServerProtocol._handle_gemini_request:consult-ip")
+
+# ---------------------------------------------------------------- round h rules
+M("C01", "pause-reading-before-response", "breaking",
+  [(P, SR, "        self.response_sent = True\n        self.transport.write(header)\n", "        self.response_sent = True\n        self.transport.pause_reading()\n        self.transport.write(header)\n")],
+  "W12:server.protocol:GeminiServerProtocol._send_response:facade-lacks:pause_reading")
+_CLOSE = ("    async def __aenter__(self) -> \"GeminiClient\":", "    def close(self) -> None:\n        self.tofu_db = None\n\n    async def __aenter__(self) -> \"GeminiClient\":")
+M("C11", "client-close-drops-tofu-store", "breaking", [(SS, "GeminiClient", *_CLOSE)], "F6:client.session:GeminiClient.close:shared-state:self.tofu_db")
+M("C17", "client-close-drops-tofu-store", "breaking", [(SS, "GeminiClient", *_CLOSE)], "Y8:client.session:GeminiClient.close:shared-state:self.tofu_db")
+M("C13", "client-remembers-last-url", "breaking",
+  [(SS, GS, "        parsed = parse_url(url)\n", "        parsed = parse_url(url)\n        self._last_url = url\n")],
+  "E11:client.session:GeminiClient._get_single:shared-state:self._last_url")
+M("C14", "titan-parser-lru-cache", "breaking",
+  [(RQ, "TitanRequest", "    @classmethod\n    def from_line(cls, line: str) -> \"TitanRequest\":", "    @classmethod\n    @functools.lru_cache(maxsize=64)\n    def from_line(cls, line: str) -> \"TitanRequest\":"),
+   (RQ, None, "import re\n", "import functools\nimport re\n")],
+  "U10:protocol.request:TitanRequest.from_line:parser-memoised")
+M("C15", "handshake-timer-on-cached-loop", "breaking",
+  [(TP, "TLSServerProtocol.connection_made", "            loop = asyncio.get_running_loop()\n            self._handshake_timer = loop.call_later(", "            if TLSServerProtocol._loop is None:\n                TLSServerProtocol._loop = asyncio.get_running_loop()\n            self._handshake_timer = TLSServerProtocol._loop.call_later("),
+   (TP, "TLSServerProtocol", "    def __init__(", "    _loop = None\n\n    def __init__(")],
+  "X7:server.tls_protocol:TLSServerProtocol.connection_made:timer-on-cached-loop")
+M("C19", "redirect-target-requoted", "breaking",
+  [(SS, RF, "            redirect_chain.append(url)\n", "            redirect_url = quote(unquote(redirect_url), safe=\":/?#[]@!$&'()*+,;=%\")\n            redirect_chain.append(url)\n"),
+   (SS, None, "import asyncio\n", "import asyncio\nfrom urllib.parse import quote, unquote\n")],
+  "N7:client.session:GeminiClient._get_with_redirects:redirect-target-rewritten")
+M("C16", "redirect-target-lowercased", "breaking",
+  [(SS, RF, "            redirect_chain.append(url)\n", "            redirect_url = redirect_url.lower()\n            redirect_chain.append(url)\n")],
+  "G13:client.session:GeminiClient._get_with_redirects:redirect-target-rewritten")
